@@ -160,3 +160,4 @@ M("c19-scatter-size-inplace", "C19", "plot/scatter.py", "                size = 
 M("c19-bins-call-wins", "C19", "plot/parser.py", "    if out.bins is None:\n        out.bins = bins", "    if bins is not None:\n        out.bins = bins", "call-level bins override the layer's")
 M("c17-unfix-vector-inplace", "C17", "core/vector.py", "        for c, xyz in lhs._xyz.items():\n            getattr(xyz, op)(getattr(rhs, c))\n        return lhs\n", "        pass\n", "Vector in-place operators return a new Vector again (stale unit on other references after a second update)")
 M("c17-unfix-vector-alias-copy", "C17", "core/vector.py", "        if _shares_memory(lhs, rhs):\n            rhs = rhs.copy()", "        if False and _shares_memory(lhs, rhs):\n            rhs = rhs.copy()", "operand aliasing a component is not copied before the component-wise update")
+M("c03-unfix-depth-step", "C03", "plot/map.py", "        zspacing = abs(zmax - zmin) or 1.0", "        zspacing = zmax - zmin", "negative depth step for automatic windows (the original defect; needs the origin near the domain edge)")
